@@ -103,6 +103,8 @@ pub const PRESETS: &[Preset] = &[
     Preset { fat: 32, bps: 512, spc: 1, fats: 2, root_entries: 0, total_sectors: 67000 },
     Preset { fat: 32, bps: 512, spc: 8, fats: 1, root_entries: 0, total_sectors: 8 * 66000 },
     Preset { fat: 32, bps: 4096, spc: 1, fats: 2, root_entries: 0, total_sectors: 66000 },
+    // FAT16 with 65536 sectors or more: the sector count lives in the 32-bit field, the 16-bit one is zero
+    Preset { fat: 16, bps: 512, spc: 16, fats: 2, root_entries: 512, total_sectors: 70000 },
 ];
 
 /// (base preset, number of FATs, geometry)
@@ -130,6 +132,8 @@ pub const GEN_PRESETS: &[(usize, u8, fn() -> GenGeom)] = &[
     // FAT32 root directory in the very last / second-to-last cluster
     (12, 2, || GenGeom { rsvd: 32, root_from_end: 1, ..Default::default() }),
     (13, 1, || GenGeom { rsvd: 16, root_from_end: 2, high_nibbles: true, ..Default::default() }),
+    // FAT16 whose sector count needs the 32-bit field
+    (15, 2, || GenGeom { rsvd: 4, ..Default::default() }),
 ];
 
 /// (FAT width, cluster count, sectors per cluster)
